@@ -32,7 +32,9 @@ def reaction_tuple(rx, shared=None):
 def rule_tuple(rl):
     if rl["type"] == "ode":
         return ("ode", {"equation": rl["eq"], "target": rl["target"]})
-    return (rl["type"], {"equation": rl["eq"]}, rl.get("freq", "repeated"))
+    if rl.get("freq", "repeated") == "repeated":
+        return (rl["type"], {"equation": rl["eq"]})          # the documented short form: frequency defaults to "repeated"
+    return (rl["type"], {"equation": rl["eq"]}, rl["freq"])
 
 
 def to_model(spec, initialize=True, lineage=False, share_dicts=False, **extra):
